@@ -10,6 +10,10 @@ LEVEL = "proof"
 def run(res):
     run_contracts(res, cs.CONTRACTS + cs.TERMINATION, cs.CONTRACTS + cs.TERMINATION)
     frames.subset_constructible(res)
+    import glob, os
+    from pyvc.engine import REPO
+    frames.seed_presence_by_identity(res, sorted(os.path.relpath(p_, REPO) for p_ in
+                                                 glob.glob(os.path.join(REPO, "kappadata/wrappers/dataset_wrappers", "**", "*.py"), recursive=True)))
     r, n = rp.search(100, res.seed)
     add_direct(res, "bounded:dataset-wrappers", "bounded", r is None, backend="bounded", model=r,
                note="the ten real wrappers over small class layouts; selection recomputed from the documentation promises")
